@@ -35,9 +35,10 @@ TIERS = {
 LADDER = [0.02, 0.01, 0.005, 0.0025]
 STEP_DTS = [0.04, 0.02, 0.01, 0.005]
 RULE = (
-    "run i uses compiled-menu entry i mod M (walker type, trial kind rhf/uhf/ghf/noci, electron counts, 1-3 Cholesky matrices, dt from "
-    "the ladder, n_exp_terms 4/6, walkers, batches, kind history/ladder) and draws Hamiltonian (spin-dependent h1 for unrestricted), "
-    "mean-field rdm1 (trial's own or arbitrary), complex non-orthonormal start walkers, JAX seed and the operation history from "
+    "run i uses compiled-menu entry i mod M (walker type, trial kind rhf/uhf/ghf/noci/cisd/ucisd, electron counts incl. an empty or a filled spin "
+    "channel, 1-3 Cholesky matrices, dt from the ladder, n_exp_terms 4/6, 1-6 walkers, batches, kind history/ladder/sampler) and draws "
+    "Hamiltonian (spin-dependent h1 for unrestricted, large energy constant, core-like level), "
+    "mean-field rdm1 (trial's own or arbitrary, real or complex Hermitian), complex non-orthonormal start walkers, JAX seed and the operation history from "
     "sha256(seed|C04|i). Non-trivial = at least 3 compared steps with a weight factor different from 0 and 1; distinct = distinct "
     "digest of the compared quantities."
 )
@@ -46,10 +47,11 @@ ASSUMPTIONS = [
     "pointwise comparison tolerance 1e-9 relative; comparisons whose outcome depends on a threshold (1e-3, 100, cos theta = 0, product 100) are skipped when the model's value lies within 1e-7 of it",
     "real trial coefficients (the library conjugates rhf/uhf orbitals but not ghf/noci ones)",
     "start walkers have |overlap| bounded below (generator precondition)",
+    "the hand-coded CISD/UCISD trials are given only as routines: their state is the bra their own overlap routine defines, fitted on random walkers as a bilinear form in the alpha and beta minors and verified on a second sample (residual <= 1e-9); force bias, local energy and the step are then compared with that state like for any other trial; CISD block energies at 2e-6 (the library contracts one term in single precision on purpose)",
 ]
 COMPONENTS = {
     "real": ["ad_afqmc.propagation.propagator_restricted/unrestricted: propagate, _apply_trotprop(_det), _build_propagation_intermediates, QR, local SR",
-             "ad_afqmc.wavefunctions rhf/uhf/ghf/noci: calc_overlap, calc_force_bias", "jax / XLA CPU"],
+             "ad_afqmc.wavefunctions rhf/uhf/ghf/noci/cisd/ucisd: calc_overlap, calc_force_bias, calc_energy (sampler kind)", "ad_afqmc.sampling.sampler.propagate_phaseless", "jax / XLA CPU"],
     "model": ["afqmcsim.models.fock (second quantisation)", "afqmcsim.models.phaseless.StepModel"],
     "stub": [],
 }
@@ -70,7 +72,15 @@ def menu_entry(k):
     m = dict(wt=wt, trial=trial, nelec=nelec, norb=norb, nchol=r.choice([1, 2, 3]), dt=STEP_DTS[k % 4], n_exp_terms=r.choice([4, 6]),
                 n_walkers=r.choice([4, 6]), n_batch=r.choice([1, 2]), kind="ladder" if k % 6 == 5 else ("sampler" if k % 6 == 2 else "history"),
                 n_prop_steps=r.choice([1, 2, 3]), n_ene_blocks=r.choice([1, 2]), n_sr_blocks=r.choice([2, 3]))
-    return lab.corner_override(m, k, 4)
+    lab.corner_override(m, k, 4)
+    # hand-coded CISD / UCISD trials (the most used production trials): own stream again
+    r2 = random.Random(4000003 + k)
+    if m.get("corner") is None and r2.random() < (0.6 if m["kind"] == "sampler" else 0.2):
+        if m["wt"] == "restricted" and m["trial"] == "rhf":
+            m["trial"], m["corner"] = "cisd", "cisd_trial"
+        elif m["wt"] == "unrestricted" and m["trial"] in ("uhf", "noci") and min(m["nelec"]) >= 1:
+            m["trial"], m["corner"] = "ucisd", "ucisd_trial"
+    return m
 
 
 def gen_cfg(seed, index, tier):
@@ -90,6 +100,8 @@ def gen_cfg(seed, index, tier):
     m["h0_offset"] = r41.choice([0.0, 0.0, 0.0, -480.0, 150.0]) if m["kind"] != "ladder" else 0.0
     m["core_level"] = r41.choice([0.0, 0.0, 0.0, -30.0]) if m["kind"] != "ladder" else 0.0
     m["h1_antisym"] = rng.choice([0.0, 0.0, 0.0, 0.05])
+    if m["trial"] in ("cisd", "ucisd"):
+        m["h1_antisym"] = 0.0  # only the mean-field trials symmetrise a non-symmetric one-body input; the property quantifies over symmetric h1
     m["reuse_ham_data"] = rng.random() < 0.3  # intermediates rebuilt on a dict that was built for another Hamiltonian before
     m["jax_seed"] = rng.randrange(1, 2**20)
     m["walker_noise"] = rng.choice([0.05, 0.2, 0.5])
@@ -136,6 +148,7 @@ def build(cfg, dt=None):
     rs = np.random.RandomState((cfg["ham_seed"] + 77) % (2**32 - 1))
     s.ham_data_raw = dict(s.ham_data_raw)
     s.ham_data_raw["ene0"] = cfg.get("ene0", 0.0)
+    s.own_rdm1 = np.asarray(s.wave_data["rdm1"])
     if cfg["rdm1_kind"] == "arbitrary":
         r0 = np.asarray(s.wave_data["rdm1"])
         s.wave_data = dict(s.wave_data)
@@ -150,9 +163,17 @@ def build(cfg, dt=None):
 
 
 def make_model(cfg, s, dt=None):
+    import jax.numpy as jnp
+
     hd = s.ham_data_raw
     sec = fock.Sector(cfg["norb"], cfg["nelec"])
-    psi = fock.trial_state(sec, cfg["trial"], s.wave_data)
+    if cfg["trial"] == "cisd":
+        # hand-coded CI-type trials are given only as routines: the state is the bra their overlap routine defines
+        psi = fock.extract_bra(sec, lambda w: s.trial._calc_overlap_restricted(jnp.array(w), s.wave_data), restricted=True, seed=cfg["ham_seed"] % (2**31))
+    elif cfg["trial"] == "ucisd":
+        psi = fock.extract_bra(sec, lambda u, d: s.trial._calc_overlap(jnp.array(u), jnp.array(d), s.wave_data), restricted=False, seed=cfg["ham_seed"] % (2**31))
+    else:
+        psi = fock.trial_state(sec, cfg["trial"], s.wave_data)
     return phaseless.StepModel(norb=cfg["norb"], nelec=cfg["nelec"], h0=float(hd["h0"]), h1=np.asarray(hd["h1"]), chol=np.asarray(hd["chol"]),
                                rdm1=np.asarray(s.wave_data["rdm1"]), dt=cfg["dt"] if dt is None else dt, n_exp_terms=cfg["n_exp_terms"], psi=psi,
                                restricted=(cfg["wt"] == "restricted"))
@@ -164,8 +185,12 @@ def start_walkers(cfg, s, rs):
 
     nw, norb = cfg["n_walkers"], cfg["norb"]
     r = np.asarray(s.wave_data["rdm1"])
-    base_up = np.linalg.eigh(np.asarray(s.trial.get_rdm1({k: v for k, v in s.wave_data.items() if k != "rdm1"}))[0])[1][:, ::-1][:, : cfg["nelec"][0]]
-    base_dn = np.linalg.eigh(np.asarray(s.trial.get_rdm1({k: v for k, v in s.wave_data.items() if k != "rdm1"}))[1])[1][:, ::-1][:, : cfg["nelec"][1]]
+    if cfg["trial"] in ("cisd", "ucisd"):
+        own = s.own_rdm1  # these trials define no rdm1 of their own: the reference determinant's, as the set-up supplies it
+    else:
+        own = np.asarray(s.trial.get_rdm1({k: v for k, v in s.wave_data.items() if k != "rdm1"}))
+    base_up = np.linalg.eigh(own[0])[1][:, ::-1][:, : cfg["nelec"][0]]
+    base_dn = np.linalg.eigh(own[1])[1][:, ::-1][:, : cfg["nelec"][1]]
     eps = cfg["walker_noise"]
 
     def noisy(b):
@@ -404,7 +429,9 @@ def _exec_sampler(cfg, ctx):
         return {"digest": None, "nontrivial": False}
     e_model = float(np.sum(np.array(be_l) * np.array(bw_l)) / np.sum(bw_l))
     e_c = float(np.asarray(e_code))
-    if not abs(e_c - e_model) <= 1e-8 * max(1.0, abs(e_model)):
+    # the hand-coded CISD energy contracts its doubles-doubles term in single precision on purpose (complex64 / float32)
+    e_tol = 2e-6 if cfg["trial"] == "cisd" else 1e-8
+    if not abs(e_c - e_model) <= e_tol * max(1.0, abs(e_model)):
         _bad(ctx, "phaseless.sampler_energy_differs_from_composed_model_steps", site, cfg, sampler=e_c, model=e_model, block_energies_model=be_l)
     wc = np.asarray(pd_code["weights"])
     if not np.allclose(wc, wts, rtol=1e-8, atol=1e-12):
